@@ -16,6 +16,7 @@ import time
 
 from ..core import PKG, VERIF, PROVED, REFUTED, UNKNOWN, FAULT, Ob, seed
 from .. import calc
+from .. import c02_vector
 
 LEVEL = "proof"
 DEMOTED_FILE = VERIF / "vf" / "c02_demoted.json"
@@ -66,6 +67,7 @@ def run(report):
     slow = []
     audit = {"functions": 0, "points": 0, "failures": [], "no_point": 0}
     extra_kinds = collections.Counter()
+    vec_counters = c02_vector.new_counters()
     for r in results:
         m = r["modname"]
         if r.get("crash"):
@@ -89,9 +91,27 @@ def run(report):
         if got != sorted(ast_names[m]):
             report.fault(f"harvest mismatch in {m}: ast {sorted(ast_names[m])} vs imported {got}")
         slow.append((r["secs"], m))
+        # vector-form module: obligations of vf.c02_vector (mutual inverses of the law functions, calculate_* returns the law
+        # function applied to its arguments) replace the out_of_reach entry of every calculate function they cover
+        vec = r.get("vector")
+        vec_fns = {}
+        if vec is not None:
+            if set(vec) == {"fault"}:
+                report.fault(vec["fault"])
+            else:
+                vec_fns = c02_vector.merge(report, vec, vec_counters)
         for f in r["functions"]:
             found += 1
             report.function(f.qual, f.file)
+            if f.qual in vec_fns and vec_fns[f.qual][0] in ("proved", "refuted", "bounded", "bounded_length", "out_of_reach"):
+                vk, vreason = vec_fns[f.qual]
+                klass_count[vk] += 1
+                if vk == "out_of_reach":
+                    report.add_out_of_reach(f.qual, vreason[:600])
+                    reasons[_bucket(vreason)] += 1
+                elif vk == "bounded":
+                    reasons["vector form: " + _bucket(vreason)] += 1
+                continue
             rebound_all |= set(f.rebound)
             axioms_all |= set(f.axioms)
             klass_count[f.klass] += 1
@@ -149,6 +169,7 @@ def run(report):
             report.fault(f"harvest: only {len(files)} catalogue modules")
         if klass_count["proved"] < 100:
             report.fault(f"vacuity: only {klass_count['proved']} functions proved")
+    c02_vector.finish(report, vec_counters, full_run=not only)
     report.extra.update({
         "modules": len(files),
         "modules_with_calculate_functions": len(tasks),
